@@ -246,7 +246,7 @@ def check_c16(tier, seed):
         prior_names = ["absent", "older", "identical-other-mode", "unrelated", "base-is-file"]
         if tier != "quick":
             prior_names += ["older-partial", "older-readonly-mode", "skill-dir-has-extra"]
-        modes = ["default", "user", "path-rel", "path-abs", "path-user"]
+        modes = ["default", "user", "path-rel", "path-abs", "path-user", "path-rel-user", "path-rel-dotdot"]
         for agent in sorted(documented):
             proj, user = documented[agent]
             for mode in modes:
@@ -261,10 +261,16 @@ def check_c16(tier, seed):
                         base = os.path.join(sb.cwd, "custom", "dir"); args += ["--path", "custom/dir"]
                     elif mode == "path-abs":
                         base = os.path.join(sb.other, "abs", "p"); args += ["--path", base]
-                    else:
+                    elif mode == "path-user":
                         base = os.path.join(sb.other, "both"); args += ["--path", base, "--user"]
+                    elif mode == "path-rel-user":
+                        base = os.path.join(sb.cwd, "tools", "skills"); args += ["--path", "tools/skills", "--user"]
+                    else:
+                        base = os.path.join(sb.root, "sibling", "x"); args += ["--path", "../sibling/x"]
                     skill = os.path.join(base, "kessoku-di")
                     # unrelated bystanders everywhere
+                    sib = os.path.join(sb.root, "sibling")
+                    shutil.rmtree(sib, ignore_errors=True)
                     for d in (sb.home, sb.cwd, sb.other):
                         os.makedirs(os.path.join(d, "keep"), exist_ok=True)
                         open(os.path.join(d, "keep", "a.txt"), "w").write("bystander")
@@ -282,9 +288,10 @@ def check_c16(tier, seed):
                         F.lay_down(skill, priors_all["older"], {"notes/mine.md": b"user notes", "references/EXTRA.md": b"extra"})
                     elif pn != "absent":
                         F.lay_down(skill, priors_all[pn])
-                    before = {d: F.snapshot(d) for d in (sb.home, sb.cwd, sb.other)}
+                    roots = (sb.home, sb.cwd, sb.other, sib)
+                    before = {d: F.snapshot(d) for d in roots}
                     rc, out, err = F.run_cli(cli, sb, args); runs += 1
-                    after = {d: F.snapshot(d) for d in (sb.home, sb.cwd, sb.other)}
+                    after = {d: F.snapshot(d) for d in roots}
                     desc = {"agent": agent, "mode": mode, "args": args[1:], "prior": pn}
                     def viol(text, **kw):
                         rp = {"kind": "input", "failing_input": desc, "reproduce": "HOME=<home> kessoku llm-setup %s in <cwd> over prior state '%s'" % (" ".join(a.replace(sb.root, "<root>") for a in args), pn)}
@@ -309,7 +316,7 @@ def check_c16(tier, seed):
                         if stat.S_IMODE(st.st_mode) != 0o644:
                             viol("%s has mode %o, want 644" % (rel, stat.S_IMODE(st.st_mode))); break
                     # 2. nothing else created or modified (apart from parent directories of the skill dir)
-                    for d in (sb.home, sb.cwd, sb.other):
+                    for d in roots:
                         b, a = before[d], after[d]
                         for rel in sorted(set(a) | set(b)):
                             full = os.path.join(d, rel)
@@ -339,6 +346,6 @@ def check_c16(tier, seed):
         sb.close()
     R.samples = samples
     R.coverage.update({"evaluations": runs, "distinct_nontrivial": runs - 1, "exhaustive": True, "traces_validated_against_impl": runs,
-                       "rule": "all documented agents x {default, --user, --path relative, --path absolute, --path with --user} x prior states %s, each with bystander files in $HOME, cwd and an unrelated directory; before/after snapshots of all three; every combination is distinct" % prior_names})
+                       "rule": "all documented agents x {default, --user, --path relative, --path absolute, --path absolute with --user, --path relative with --user, --path ../relative} x prior states %s, each with bystander files in $HOME, cwd and an unrelated directory; before/after snapshots of all three; every combination is distinct" % prior_names})
     R.assumptions = ["the README table is the documentation the property refers to", "kong dispatches a sub-command to the AgentCmd of the same field (validated by running every sub-command)"]
     return R.finish("cd lean && lake build KV.Props.C16 && lake env lean <audit of Props/C16 theorems>", TRUSTED)
